@@ -49,7 +49,7 @@ H={
 'C08-3':'missed at first; C08 now overwrites the returned MAC with de.. before the second call and holds returned slices across later calls (Ctx.Hold)',
 'C08-4':'missed by quick at first (largest quick payload 1 024 octets); the laws now run at 8 192, 8 200, 4 097 (quick) and 16 384, 70 000 (thorough) octets',
 'C10-3':'missed by C10 at first (C02\'s batch oracle caught it); C10 now keeps the previous PlainNasEncode result and verifies it after the next encode',
-'C10-4':'not decidable sequentially; C10 now runs a concurrent decode probe per message type (8 goroutines x 400 decodes of their own inputs compared with the sequential result). Sampled schedules — C19 is the property with the race detector',
+'C10-4':'not decidable sequentially; C10 now runs a concurrent decode probe per message type (8 goroutines x 400 decodes of their own inputs compared with the sequential result). Sampled schedules — C19 is the property with the race detector. After the third wave re-partitioned the units it was missed again at 8 x 400 decodes; the probe now runs 16 goroutines x 2500 (thorough 8000) decodes and finds it at VERIF_SEED 1, 2 and 3',
 'C12-3':'missed at first; the invalid-text families now include sign-prefixed, space-padded, 0x-prefixed and underscore-separated hex for AMF ids and for the AMF-id/TMSI/MCC/MNC parts of a GUTI',
 'C12-4':'missed at first (the check converted a private copy); converters are now called twice on the same buffer and the buffer is compared with its snapshot (input-mutated)',
 'C15-3':'missed at first; MarshalBinary results are now held across later calls (Ctx.Hold)',
